@@ -174,6 +174,21 @@ def content_digest(db: Any, with_render: bool = True) -> Tuple[str, Dict[str, An
     return snap_digest(snap), snap
 
 
+def strict_warnings(on: bool) -> Optional[List[Any]]:
+    """-> the saved filter list when the strict environment was installed."""
+    if not on:
+        return None
+    import warnings
+    saved = list(warnings.filters)
+    warnings.simplefilter("error", DeprecationWarning)
+    try:
+        from pyparsing import PyparsingDeprecationWarning
+        warnings.filterwarnings("ignore", category=PyparsingDeprecationWarning)
+    except ImportError:
+        pass
+    return saved
+
+
 def touch_elements(db: Any) -> None:
     """What a caller does with a result: read the texts of single elements (of whatever renderer the database was
     given).  The texts themselves are not compared here; reading them must not matter to any other result."""
@@ -412,6 +427,7 @@ def gen_workload(rseed: int, tier: str) -> Dict[str, Any]:
     # are those of the build phase and of the callers' own code
     trace_dep = nthreads > 1 and not opcodes and g.random() < 0.45
     return {"threads": threads, "warm": warm, "opcodes": opcodes, "trace_dep": trace_dep,
+            "strict_warnings": core.stream(rseed, "env").random() < 0.15,
             "docs": {str(i): docs[i]["text"] for i in used},
             "doc_names": {str(i): docs[i]["name"] for i in used},
             "pristine": {f"{i}:{a}": pristine[f"{i}:{a}"] for i in used for a in (0, 1)},
@@ -484,6 +500,12 @@ def execute(wl: Dict[str, Any], policy: S.Policy, step_cap: int = 20_000_000) ->
 
     def viol(oracle: str, signature: str, detail: Any) -> None:
         violations.append({"property": PROP, "oracle": oracle, "signature": signature, "detail": detail})
+
+    # environment: a process that turns DeprecationWarning into an error (pyparsing's own API deprecation
+    # notices, which PyDBML triggers on every parse, stay ignored).  PyDBML issues no warning of its own.
+    saved_filters = strict_warnings(bool(wl.get("strict_warnings")))
+    if saved_filters is not None:
+        count("fault:deprecation-warnings-are-errors")
 
     pristine = wl["pristine"]
     docs = wl["docs"]
@@ -738,6 +760,10 @@ def execute(wl: Dict[str, Any], policy: S.Policy, step_cap: int = 20_000_000) ->
     if tmpdir:
         import shutil
         shutil.rmtree(tmpdir, ignore_errors=True)
+    if saved_filters is not None:
+        import warnings
+        warnings.filters[:] = saved_filters
+        getattr(warnings, "_filters_mutated", lambda: None)()
     out: Dict[str, Any] = {"counters": counters, "violations": violations, "schedule": sc.schedule_json(),
                            "policy": policy.describe(), "harness": harness,
                            "steps": sc.total_steps, "switches": len(sc.voluntary),
@@ -869,7 +895,8 @@ class E1Driver:
             v = res["violations"][0]
             payload = {"engine": "E1", "property": PROP, "seed": seed, "run": i, "run_seed": rseed,
                        "hashseed": hashseed, "tier": tier,
-                       "workload": {k: wl[k] for k in ("threads", "warm", "opcodes", "trace_dep", "docs", "doc_names", "pristine")},
+                       "workload": {k: wl[k] for k in ("threads", "warm", "opcodes", "trace_dep", "docs", "doc_names", "pristine",
+                                                        "strict_warnings")},
                        "schedule": res["schedule"], "policy": res["policy"], "violation": v,
                        "all_violations": [x["signature"] for x in res["violations"]],
                        "event_digest": sched_dig, "ops": [None] * (res["switches"] + sum(len(o) for o in wl["threads"]))}
